@@ -252,6 +252,8 @@ def apply_spec_generic(it, c, locs, fr, node, label):
     cfr = Frame(it.registry.globals_for(c) if hasattr(c, 'file') and c.file else fr.globs, dict(locs), None, c, getattr(c, 'file', None), label + '<call>')
     # ghost/lets of the callee evaluated over the caller's actuals
     local_ghosts = []
+    for name, fn in (getattr(c, 'specfns', None) or {}).items():
+        cfr.locs[name] = fn
     for gname, gspec in (c.ghost or {}).items():
         # a ghost of the callee (clock, stream position...) is the caller's ghost of the same name
         try:
